@@ -17,6 +17,9 @@ from fractions import Fraction as Fr
 from . import core, nd
 
 REPO_SRC = os.environ.get('KNEE_SRC', '/repo/src/kneeliverse')
+if 'KNEE_SRC' in os.environ:
+    # debugging aid (seeded changes are evaluated in scratch worktrees): the real package is imported from the same tree as the encoding
+    sys.path.insert(0, os.path.dirname(os.path.abspath(REPO_SRC)))
 
 
 def _uts_dir():
